@@ -622,10 +622,8 @@ def lowerbound_helpers_on_unvalidated_input(prog, rep, RID):
             raise AnalysisError(f"{cname}._get_lowerbound_with_min_gen_set: MinGenSet call not found")
         key = f"{cname}._get_lowerbound_with_min_gen_set:invalid-flows-give-no-bound"
         guards = []
-        from rules.common import split_or_return_guards
-        for st in split_or_return_guards(f.node).body:
-            if getattr(st, "lineno", 0) >= calls[0].lineno:
-                break
+        from rules.common import split_or_return_guards, statements_before
+        for st in split_or_return_guards(ast.Module(body=statements_before(f.node.body, calls[0]), type_ignores=[])).body:
             if isinstance(st, ast.If) and not st.orelse and st.body and isinstance(st.body[-1], ast.Return) and isinstance(st.test, ast.Call) and \
                     dotted(st.test.func) == "any" and st.test.args and isinstance(st.test.args[0], (ast.GeneratorExp, ast.ListComp)):
                 g = st.test.args[0]
